@@ -182,3 +182,121 @@ pub fn oracle_pass(cand: Pool, workers: usize, recheck_every: usize) -> (Pool, O
     st.kept = pool.entries.len();
     (pool, st)
 }
+
+// ---------------------------------------------------------------------------
+// Ambient perturbation: the same isolated evaluations, but in a freshly exec'd process (new ASLR layout,
+// new pid, later wall-clock time) started with a scrambled environment and another working directory.
+// A result that depends on any of those is not a function of (expression, placeholder).
+
+/// `sc_sim iso-batch <in> <out>`: evaluate every call of <in> (JSON lines) in isolation, write outcomes.
+pub fn iso_batch_main(input: &str, output: &str, workers: usize) -> i32 {
+    let text = match std::fs::read_to_string(input) {
+        Ok(t) => t,
+        Err(_) => return 2,
+    };
+    let calls: Vec<Call> = text
+        .lines()
+        .filter_map(|l| serde_json::from_str::<serde_json::Value>(l).ok())
+        .filter_map(|v| Call::from_json(&v))
+        .collect();
+    let res = isolated_many(&calls, workers, Duration::from_millis(4000));
+    let mut out = String::new();
+    for r in res {
+        match r {
+            Iso::Done { outcome, .. } => out.push_str(&format!("{}\n", outcome.encode().replace('\n', "\\n"))),
+            other => out.push_str(&format!("novalue {:?}\n", other).replace('\n', " ")),
+        }
+        if !out.ends_with('\n') {
+            out.push('\n');
+        }
+    }
+    if std::fs::write(output, out).is_err() {
+        return 2;
+    }
+    0
+}
+
+pub struct AmbientStats {
+    pub ran: bool,
+    pub reason: String,
+    pub calls: usize,
+    pub compared: usize,
+    pub mismatches: Vec<(Call, String, String)>,
+}
+
+/// Re-evaluate a sample of the pool in an exec'd child with scrambled ambient inputs and compare.
+pub fn ambient_recheck(pool: &Pool, every: usize, work_dir: &str, workers: usize, seed: u64) -> AmbientStats {
+    let mut st = AmbientStats { ran: false, reason: String::new(), calls: 0, compared: 0, mismatches: Vec::new() };
+    let idx: Vec<usize> = (0..pool.entries.len()).filter(|i| every > 0 && i % every == 0).collect();
+    if idx.is_empty() {
+        st.reason = "empty sample".into();
+        return st;
+    }
+    let _ = std::fs::create_dir_all(work_dir);
+    let inp = format!("{}/ambient_in_{}.jsonl", work_dir, std::process::id());
+    let outp = format!("{}/ambient_out_{}.txt", work_dir, std::process::id());
+    let mut text = String::new();
+    for i in &idx {
+        text.push_str(&pool.entries[*i].call.to_json().to_string());
+        text.push('\n');
+    }
+    if std::fs::write(&inp, text).is_err() {
+        st.reason = "cannot write the sample".into();
+        return st;
+    }
+    let exe = match std::env::current_exe() {
+        Ok(e) => e,
+        Err(_) => {
+            st.reason = "current_exe unknown".into();
+            return st;
+        }
+    };
+    let status = std::process::Command::new(exe)
+        .arg("iso-batch")
+        .arg(&inp)
+        .arg(&outp)
+        .arg("--workers")
+        .arg(workers.to_string())
+        .env_clear()
+        .env("PATH", "/nonexistent")
+        .env("HOME", "/nonexistent/home")
+        .env("TZ", "Pacific/Kiritimati")
+        .env("LANG", "tr_TR.UTF-8")
+        .env("LC_ALL", "tr_TR.UTF-8")
+        .env("RUST_BACKTRACE", "full")
+        .env("RUST_MIN_STACK", "1048576")
+        .env("TMPDIR", "/nonexistent/tmp")
+        .env(format!("SC_AMBIENT_{}", seed), format!("{}", splitmix64(seed)))
+        .current_dir("/")
+        .stdin(std::process::Stdio::null())
+        .status();
+    let _ = std::fs::remove_file(&inp);
+    match status {
+        Ok(s) if s.success() => {}
+        other => {
+            st.reason = format!("exec'd evaluator failed: {:?}", other);
+            let _ = std::fs::remove_file(&outp);
+            return st;
+        }
+    }
+    let out = std::fs::read_to_string(&outp).unwrap_or_default();
+    let _ = std::fs::remove_file(&outp);
+    let lines: Vec<&str> = out.lines().collect();
+    if lines.len() != idx.len() {
+        st.reason = format!("expected {} outcomes, got {}", idx.len(), lines.len());
+        return st;
+    }
+    st.ran = true;
+    st.calls = idx.len();
+    for (k, i) in idx.iter().enumerate() {
+        if lines[k].starts_with("novalue") {
+            continue;
+        }
+        st.compared += 1;
+        let want = pool.entries[*i].oracle.encode().replace('\n', "\\n");
+        if lines[k] != want {
+            st.mismatches.push((pool.entries[*i].call.clone(), want, lines[k].to_string()));
+        }
+    }
+    st
+}
